@@ -1,8 +1,8 @@
 package checks
 
 import (
-	"sync/atomic"
 	"fmt"
+	"sync/atomic"
 	"testing"
 	"testing/synctest"
 	"time"
@@ -16,15 +16,15 @@ import (
 
 // c18sleepCase describes one history of the client's sleep transaction.
 type c18sleepCase struct {
-	real     bool          // real time (no bubble), tiny delays
-	rd       time.Duration // RetryDelay
-	rc       uint
-	sleep    time.Duration
-	discAt   []time.Duration // delays (after each received DISCONNECT) at which the gateway replies with DISCONNECT; empty = never
-	pingAt   time.Duration   // delay of the PINGRESP after the waking PINGREQ; <0 = never
-	closeAt  time.Duration   // when >0: Close() is called that long after Sleep() started
-	dupPing  bool            // PINGRESP sent twice
-	slowTx   time.Duration   // real time only: the client's DISCONNECT retransmissions take this long to leave (slow interface)
+	real    bool          // real time (no bubble), tiny delays
+	rd      time.Duration // RetryDelay
+	rc      uint
+	sleep   time.Duration
+	discAt  []time.Duration // delays (after each received DISCONNECT) at which the gateway replies with DISCONNECT; empty = never
+	pingAt  time.Duration   // delay of the PINGRESP after the waking PINGREQ; <0 = never
+	closeAt time.Duration   // when >0: Close() is called that long after Sleep() started
+	dupPing bool            // PINGRESP sent twice
+	slowTx  time.Duration   // real time only: the client's DISCONNECT retransmissions take this long to leave (slow interface)
 }
 
 func (k c18sleepCase) String() string {
